@@ -263,4 +263,159 @@ theorem drivenSigs_verilogOf (nl : Nl) (hn : nl.portNames.Nodup) :
   | cons g r ih =>
     rw [List.map_cons, List.flatMap_cons, ih, outConn_nlInst, outSig_nlDecl]; rfl
 
+/-! ## interface positions -/
+
+theorem idxOf_map_inj' {β γ} [BEq β] [LawfulBEq β] [BEq γ] [LawfulBEq γ] (f : β → γ) (l : List β) (x : β)
+    (hinj : ∀ y ∈ l, f y = f x → y = x) : (l.map f).idxOf (f x) = l.idxOf x := by
+  induction l with
+  | nil => rfl
+  | cons a r ih =>
+    simp only [List.map_cons, List.idxOf_cons]
+    by_cases h : a = x
+    · subst h; simp
+    · have h2 : f a ≠ f x := fun e => h (hinj a List.mem_cons_self e)
+      have h3 : (a == x) = false := by simp [h]
+      have h4 : (f a == f x) = false := by simp [h2]
+      rw [h3, h4]
+      simp only [cond_false]
+      rw [ih (fun y hy => hinj y (List.mem_cons_of_mem _ hy))]
+
+/-- the state elements of the description in `s_nodes` order: flip-flops, then latches -/
+def Nl.seqGates (nl : Nl) : List NlGate :=
+  (nl.gates.filter fun g => isDffKind g.kind) ++ (nl.gates.filter fun g => isLatchKind g.kind)
+
+theorem benchSNames_benchOf (nl : Nl) :
+    benchSNames (benchOf nl) = nl.portNames.map Ep.fork ++ nl.seqGates.map fun g => Ep.cell g.name 0 := by
+  rw [benchSNames, benchPorts_benchOf, benchGates_benchOf, Nl.seqGates, List.map_append, List.append_assoc]
+  simp only [List.filter_map, List.map_map]
+  rfl
+
+theorem vSNames_verilogOf (nl : Nl) (hn : nl.portNames.Nodup) :
+    vSNames nl.portNames (verilogOf nl) = nl.portNames.map (fun n => Ep.cell n 0) ++ nl.seqGates.map fun g => Ep.cell g.inst 0 := by
+  rw [vSNames, sigDecls_verilogOf nl hn, Nl.portNames, posNames_nlDecl, vInsts_verilogOf, Nl.seqGates, List.map_append,
+    List.append_assoc]
+  simp only [List.filter_map, List.map_map]
+  rfl
+
+/-- **interface position of a port**: the same in both renderings — its index in the port list -/
+theorem nl_spos_port (nl : Nl) (hn : nl.portNames.Nodup) (n : String) (h : n ∈ nl.portNames) :
+    benchSPos (benchOf nl) (.fork n) = nl.portNames.idxOf n ∧
+    vSPos nl.portNames (verilogOf nl) (.cell n 0) = nl.portNames.idxOf n := by
+  rw [benchSPos, vSPos, benchSNames_benchOf, vSNames_verilogOf nl hn, List.idxOf_append, List.idxOf_append,
+    if_pos (List.mem_map_of_mem h), if_pos (List.mem_map_of_mem (f := fun n => Ep.cell n 0) h)]
+  exact ⟨idxOf_map_inj' Ep.fork _ n (fun y _ e => Ep.fork.inj e),
+    idxOf_map_inj' (fun n => Ep.cell n 0) _ n (fun y _ e => (Ep.cell.inj e).1)⟩
+
+theorem nodup_map_inj {β γ} (f : β → γ) (l : List β) (h : (l.map f).Nodup) : ∀ x ∈ l, ∀ y ∈ l, f y = f x → y = x := by
+  induction l with
+  | nil => intro x hx; cases hx
+  | cons a r ih =>
+    rw [List.map_cons, List.nodup_cons] at h
+    intro x hx y hy e
+    rcases List.mem_cons.mp hx with hx | hx <;> rcases List.mem_cons.mp hy with hy | hy
+    · rw [hx, hy]
+    · have : f a ∈ r.map f := by rw [← hx, ← e]; exact List.mem_map_of_mem hy
+      exact absurd this h.1
+    · have : f a ∈ r.map f := by rw [← hy, e]; exact List.mem_map_of_mem hx
+      exact absurd this h.1
+    · exact ih h.2 x hx y hy e
+
+theorem mem_seqGates (nl : Nl) (y : NlGate) (h : y ∈ nl.seqGates) : y ∈ nl.gates := by
+  rcases List.mem_append.mp h with h | h <;> exact (List.mem_filter.mp h).1
+
+/-- **interface position of a gate** (meaningful for state elements): the same in both renderings — after the ports, its
+index among flip-flops then latches -/
+theorem nl_spos_gate (nl : Nl) (hc : CommonNl nl) (g : NlGate) (hg : g ∈ nl.gates) :
+    benchSPos (benchOf nl) (.cell g.name 0) = nl.ports.length + nl.seqGates.idxOf g ∧
+    vSPos nl.portNames (verilogOf nl) (.cell g.inst 0) = nl.ports.length + nl.seqGates.idxOf g := by
+  have h1 : Ep.cell g.name 0 ∉ nl.portNames.map Ep.fork := by
+    intro h; obtain ⟨_, _, e⟩ := List.mem_map.mp h; cases e
+  have h2 : Ep.cell g.inst 0 ∉ nl.portNames.map (fun n => Ep.cell n 0) := by
+    intro h; obtain ⟨n, hn, e⟩ := List.mem_map.mp h
+    exact hc.idisj g hg ((Ep.cell.inj e).1 ▸ hn)
+  rw [benchSPos, vSPos, benchSNames_benchOf, vSNames_verilogOf nl hc.ports, List.idxOf_append, List.idxOf_append, if_neg h1, if_neg h2,
+    List.length_map, List.length_map, Nl.portNames, List.length_map]
+  constructor
+  · rw [idxOf_map_inj' (fun g : NlGate => Ep.cell g.name 0) _ g (fun y hy e =>
+      nodup_map_inj (fun g : NlGate => g.name) nl.gates hc.gnames g hg y (mem_seqGates nl y hy) (Ep.cell.inj e).1)]
+    omega
+  · rw [idxOf_map_inj' (fun g : NlGate => Ep.cell g.inst 0) _ g (fun y hy e =>
+      nodup_map_inj (fun g : NlGate => g.inst) nl.gates hc.inames g hg y (mem_seqGates nl y hy) (Ep.cell.inj e).1)]
+    omega
+
+/-! ## the statement-level denotations agree -/
+
+theorem instVal_nlInst {α} (z : α) (neg : α → α) (prim : String → α → α → α → α → α) (a : Nat → α) (pos : Nat) (g : NlGate)
+    (hlen : g.drv.length ≤ 4) (hnc : ∀ d ∈ g.drv, isConstLit d = false) (σ : String → α) :
+    instVal primTL z neg prim a pos (nlInst g) 0 σ = if isSeqKind g.kind then a pos else gateVal z prim g.kind g.drv σ := by
+  cases hs : isSeqKind g.kind with
+  | false =>
+    simp only [Bool.false_eq_true, if_false]
+    exact gate_format_equiv z neg prim a pos g.kind g.inst g.name g.drv hlen hs hnc σ
+  | true =>
+    have hty : (nlInst g).ty = g.kind := rfl
+    simp only [instVal, hty, hs, if_true]
+    simp
+
+/-- `BenchModel` of the bench rendering, spelled out over the description -/
+theorem benchModel_benchOf {α} (nl : Nl) (z : α) (prim : String → α → α → α → α → α) (a : Nat → α) (σ : String → α) :
+    BenchModel (benchOf nl) z prim a σ ↔
+      (∀ g ∈ nl.gates, σ g.name = if isSeqKind g.kind then a (benchSPos (benchOf nl) (.cell g.name 0)) else gateVal z prim g.kind g.drv σ) ∧
+      (∀ s, s ∉ nl.gateNames → σ s = if s ∈ nl.portNames then a (benchSPos (benchOf nl) (.fork s)) else z) := by
+  unfold BenchModel
+  rw [benchGates_benchOf]
+  simp only [List.mem_map, forall_exists_index, and_imp, forall_apply_eq_imp_iff₂, isGateName_benchOf, freeVal, benchPorts_benchOf,
+    List.contains_eq_mem, decide_eq_false_iff_not, decide_eq_true_eq]
+  rfl
+
+/-- `VModel` of the Verilog rendering, spelled out over the description -/
+theorem vModel_verilogOf {α} (nl : Nl) (hn : nl.portNames.Nodup) (z : α) (neg : α → α) (prim : String → α → α → α → α → α)
+    (a : Nat → α) (σ : String → α) :
+    VModel primTL nl.portNames (verilogOf nl) z neg prim a σ ↔
+      (∀ g ∈ nl.gates, σ g.name = instVal primTL z neg prim a (vSPos nl.portNames (verilogOf nl) (.cell g.inst 0)) (nlInst g) 0 σ) ∧
+      (∀ n ∈ nl.pis, σ n = a (vSPos nl.portNames (verilogOf nl) (.cell n 0))) ∧
+      (∀ s, s ∉ nl.gateNames → s ∉ nl.pis → σ s = z) := by
+  unfold VModel
+  rw [drivenSigs_verilogOf nl hn, vPairs_verilogOf, vInsts_verilogOf]
+  have hin : inputNames (sigDecls (verilogOf nl)) = nl.pis := by rw [sigDecls_verilogOf nl hn, inputNames_nlDecl]; rfl
+  rw [hin]
+  simp only [List.mem_map, forall_exists_index, and_imp, forall_apply_eq_imp_iff₂, outConn_nlInst, List.mem_singleton, forall_eq,
+    sigDecls_verilogOf nl hn, outSig_nlDecl, List.not_mem_nil, false_imp_iff, implies_true, true_and, List.contains_eq_mem,
+    List.mem_append, decide_eq_false_iff_not, not_or]
+  rfl
+
+/-- **the two renderings denote the same function** (any value domain; combinational and sequential kinds) -/
+theorem bench_verilog_models_equiv {α} (nl : Nl) (hc : CommonNl nl) (z : α) (neg : α → α) (prim : String → α → α → α → α → α)
+    (a : Nat → α) (σ : String → α) :
+    BenchModel (benchOf nl) z prim a σ ↔ VModel primTL nl.portNames (verilogOf nl) z neg prim a σ := by
+  rw [benchModel_benchOf, vModel_verilogOf nl hc.ports]
+  have hg : ∀ g ∈ nl.gates,
+      instVal primTL z neg prim a (vSPos nl.portNames (verilogOf nl) (.cell g.inst 0)) (nlInst g) 0 σ =
+        if isSeqKind g.kind then a (benchSPos (benchOf nl) (.cell g.name 0)) else gateVal z prim g.kind g.drv σ := by
+    intro g hg
+    rw [instVal_nlInst z neg prim a _ g (hc.len g hg) (hc.nc g hg) σ, (nl_spos_gate nl hc g hg).1, (nl_spos_gate nl hc g hg).2]
+  have hp : ∀ n ∈ nl.portNames, benchSPos (benchOf nl) (.fork n) = vSPos nl.portNames (verilogOf nl) (.cell n 0) := by
+    intro n hn
+    rw [(nl_spos_port nl hc.ports n hn).1, (nl_spos_port nl hc.ports n hn).2]
+  constructor
+  · rintro ⟨h1, h2⟩
+    refine ⟨fun g hgm => by rw [hg g hgm]; exact h1 g hgm, fun n hn => ?_, fun s hs hpi => ?_⟩
+    · have hpn : n ∈ nl.portNames := (mem_portNames nl n).mpr (Or.inl hn)
+      rw [h2 n (hc.pis n hn), if_pos hpn, hp n hpn]
+    · have hpn : s ∉ nl.portNames := by
+        intro h
+        rcases (mem_portNames nl s).mp h with h | h
+        · exact hpi h
+        · exact hs (hc.pos s h)
+      rw [h2 s hs, if_neg hpn]
+  · rintro ⟨h1, h2, h3⟩
+    refine ⟨fun g hgm => by rw [← hg g hgm]; exact h1 g hgm, fun s hs => ?_⟩
+    by_cases hpn : s ∈ nl.portNames
+    · rw [if_pos hpn, hp s hpn]
+      rcases (mem_portNames nl s).mp hpn with h | h
+      · exact h2 s h
+      · exact absurd (hc.pos s h) hs
+    · rw [if_neg hpn]
+      exact h3 s hs (fun h => hpn ((mem_portNames nl s).mpr (Or.inl h)))
+
 end KV.Netlist
